@@ -42,7 +42,9 @@ KINDS = [0, 3, 1, 10000, 19999, 30000, 39999]
 DVALS = [None, "BARE", "", "a", "ab", "abc", "é"]
 # legal but unusual d tags: further elements after the value (the address is the FIRST value), several d tags
 # (the first one counts), other tags before the d tag
-ODD_DVALS = [("x", "a"), ("y", "ab", "abc"), ("a", "x"), ("", "a"), "MULTI:a,ab", "MULTI:x,a", "AFTER:a", "AFTER:ab"]
+# (a BARE or empty first d tag followed by a valued one still has the address "")
+ODD_DVALS = [("x", "a"), ("y", "ab", "abc"), ("a", "x"), ("", "a"), "MULTI:a,ab", "MULTI:x,a", "AFTER:a", "AFTER:ab",
+             "BAREFIRST:a", "BAREFIRST:ab", "MULTI:,a", "MULTI:,ab"]
 TS = [gen.T0 + 5, gen.T0 + 10, gen.T0 + 19, gen.T0 + 20, gen.T0 + 20, gen.T0 + 21]  # equal, one second apart, further apart
 
 
@@ -78,6 +80,8 @@ def mk(key, kind, d, ts, n, poison=None):
             tags = [["d"]]
         elif isinstance(d, tuple):
             tags = [["d"] + list(d)]
+        elif isinstance(d, str) and d.startswith("BAREFIRST:"):
+            tags = [["d"], ["d", d[10:]]]
         elif isinstance(d, str) and d.startswith("MULTI:"):
             tags = [["d", x] for x in d[6:].split(",")]
         elif isinstance(d, str) and d.startswith("AFTER:"):
